@@ -18,6 +18,14 @@ BUILT = {
             'simulated clock seam covering every clock read of the engine.'),
 }
 
+BUILT['C37'] = ('kbd', '4/C37',
+    'Seeded search over histories of typing bursts (key-down signals delivered at chosen polls, also while a '
+    'stored program spins on INKEY$), INKEY$/INPUT$/LINE INPUT reads, BIOS ring-buffer PEEKs, the documented '
+    'clearing POKE and suspend/resume, against a 15-key drop-when-full FIFO model; full-buffer beeps are counted '
+    'on the audio queue. Exploration: the property quantifies over histories of an asynchronous producer.',
+    'Trusts: the key-down signal format of the interface protocol; only drop-free schedules are judged when keys '
+    'arrive while a program consumes them (drops would depend on the interleaving).')
+
 PURE = {
     'C02': 'pure function of two 16-bit operands: no schedule, clock, fault or history for a simulator to own (needs exhaustive enumeration/SMT)',
     'C03': 'pure function of a bit pattern: not a simulation target',
